@@ -3,6 +3,10 @@
 //! containers by plain structs with the same accessor names, because building real `RowGroupMetaData`
 //! (schema descriptors, Arc'd type trees) is what made the in-crate composition harness exceed 40 min.
 //! Contract assumed (parquet-rs): a row group has a fixed list of column chunks, each with optional statistics.
+/// real parquet-rs value types (ByteArray ...) used when harnesses build BYTE_ARRAY statistics
+pub mod data_type {
+    pub use real_parquet::data_type::*;
+}
 pub mod file {
     pub mod statistics {
         pub use real_parquet::file::statistics::*;
